@@ -118,13 +118,13 @@ Proof.
       * apply Z.ltb_ge in Hlt. apply Keep; [exact H | intros; exact Hlt].
 Qed.
 
-Lemma not_requestable_busy u : can_request_state u = false -> t_en u = true -> t_busy u = true.
+Lemma not_requestable_busy u : can_request_state u = false -> t_en u = true -> busy_ann u = true.
 Proof. unfold can_request_state. intros H He. rewrite He in H. simpl in H. apply negb_false_iff in H. exact H. Qed.
 
 Lemma fntr_spec l t : find_next_to_request l = Some t ->
   exists l1 l2, l = l1 ++ t :: l2 /\ can_request_state t = true /\
   forall u, In u l1 -> t_en u = true -> t_fc u = 0 ->
-    t_busy u = true \/
+    busy_ann u = true \/
     (activity_time_next t <= activity_time_next u /\
      exists p, In p l1 /\ can_request_state p = true /\ t_fc p <> 0).
 Proof.
@@ -133,7 +133,7 @@ Proof.
   pose proof (take_drop nq l) as Hl. pose proof (take_while_all nq l) as Hd.
   destruct (drop_while nq l) as [| p r] eqn:Hdr; [discriminate |].
   pose proof (drop_while_head nq l p r Hdr) as Hp. unfold nq in Hp. apply negb_false_iff in Hp.
-  assert (Hbusy : forall u, In u (take_while nq l) -> t_en u = true -> t_busy u = true).
+  assert (Hbusy : forall u, In u (take_while nq l) -> t_en u = true -> busy_ann u = true).
   { intros u Hu He. rewrite Forall_forall in Hd. specialize (Hd u Hu). unfold nq in Hd. apply negb_true_iff in Hd.
     apply not_requestable_busy; assumption. }
   destruct (t_fc p =? 0) eqn:Hfp.
@@ -155,7 +155,7 @@ Qed.
 
 Lemma fntr_tier l t : nsorted (map t_group l) -> find_next_to_request l = Some t ->
   forall u, In u l -> (t_group u < t_group t)%nat -> t_en u = true -> t_fc u = 0 ->
-    t_busy u = true \/
+    busy_ann u = true \/
     (activity_time_next t <= activity_time_next u /\
      exists p, In p l /\ can_request_state p = true /\ t_fc p <> 0).
 Proof.
@@ -180,12 +180,12 @@ Lemma mask_excl_stopped f : mask_excl f -> current_send_event f = EvStopped -> f
 Proof. unfold mask_excl, current_send_event. destruct f as [u c st sp a rq fa pr]; simpl. intros. dbools. Qed.
 
 Section Theorems.
-Variables (t0 : Z) (groups : list nat) (ops : list op) (r : req).
+Variables (t0 : Z) (groups : list (nat * bool)) (ops : list op) (r : req).
 Hypothesis Hin : In r (log (run (init t0 groups) ops)).
 
 Lemma one_in_flight :
   t_en (r_pre r) = true /\ r_repl r = t_busy (r_pre r) /\
-  (t_busy (r_pre r) = true -> r_ev r <> EvNone /\ r_ev r <> t_ev (r_pre r)).
+  (t_busy (r_pre r) = true -> r_ev r <> t_ev (r_pre r) /\ (t_ev (r_pre r) <> EvScrape -> r_ev r <> EvNone)).
 Proof. destruct (reachable_site _ _ _ _ Hin) as [(a & b & c & d) _]. auto. Qed.
 
 (* full strength: no exception for manual requests any more *)
@@ -250,7 +250,7 @@ Lemma tier_order :
   r_src r = SrcTimer ->
   f_promisc (r_fl r) = true \/ f_requesting (r_fl r) = true \/
   (forall u, In u (r_trs r) -> (t_group u < t_group (r_pre r))%nat -> t_en u = true -> t_fc u = 0 ->
-     t_busy u = true \/
+     busy_ann u = true \/
      (activity_time_next (r_pre r) <= activity_time_next u /\
       exists p, In p (r_trs r) /\ can_request_state p = true /\ t_fc p <> 0)).
 Proof.
@@ -306,11 +306,22 @@ Qed.
 Lemma params_match t0 groups ops o :
   let s := run (init t0 groups) ops in
   exists new, log (step s o) = new ++ log s /\
-    Forall (fun r => r_up r = Z.max (s_up s) 0 /\ r_comp r = Z.max (s_comp s) 0 /\ r_left r = s_left s) new.
+    Forall (fun r => let '(up, comp, lft) := figs_for s o in
+                     r_up r = Z.max up 0 /\ r_comp r = Z.max comp 0 /\ r_left r = lft) new.
 Proof.
   simpl. destruct (Inv_run ops _ (Inv_init t0 groups)) as (Hm & _).
   destruct (step_spec _ Hm o) as (_ & _ & _ & [new [e1 e2]]). exists new. split; [exact e1 |].
-  eapply Forall_impl; [| exact e2]. intros r (_ & h & _). exact h.
+  eapply Forall_impl; [| exact e2]. intros r (_ & h & _). destruct o; exact h.
+Qed.
+
+(* a (re)start resets the baselines before 'started' is sent: the announce reports 0 / 0 *)
+Lemma restart_reports_zero t0 groups ops skip :
+  let s := run (init t0 groups) ops in
+  exists new, log (step s (OStart skip)) = new ++ log s /\
+    Forall (fun r => r_up r = 0 /\ r_comp r = 0 /\ r_left r = s_left s) new.
+Proof.
+  simpl. destruct (params_match t0 groups ops (OStart skip)) as [new [e1 e2]]. exists new. split; [exact e1 |].
+  eapply Forall_impl; [| exact e2]. simpl. intros r (a & b & c). auto.
 Qed.
 
 (* ------------------------------------------------------------------ started / completed: trace form *)
@@ -342,6 +353,40 @@ Proof.
   destruct (send_to_in_use_E SrcCompleted EvCompleted (ctl_close s1)) as [_ (h & _)]. rewrite h. reflexivity.
 Qed.
 
+Lemma find_id_upd l id f : (forall x, t_id (f x) = t_id x) -> find_id (upd l id f) id = option_map f (find_id l id).
+Proof.
+  intros Hf. unfold find_id, upd. induction l as [| x r IH]; simpl; [reflexivity |].
+  destruct (Nat.eqb (t_id x) id) eqn:E.
+  - rewrite Hf, E. reflexivity.
+  - rewrite E. exact IH.
+Qed.
+
+Lemma worker_upd_ev r x : t_ev (worker_upd r x) = t_ev x.
+Proof. unfold worker_upd. destruct (event_eqb (t_ev x) EvScrape); [reflexivity |]. destruct r as [? ? | [[? ?] |]]; reflexivity. Qed.
+
+(* the main-thread part of a reply keeps the pending flag unless it is the success of a request that carried the event *)
+Lemma main_part_flag ev id ok scr x : (ev = EvStarted \/ ev = EvCompleted) -> mask_excl (fl x) -> pend_flag ev (fl x) = true ->
+  (ok = true -> scr = false -> f_active (fl x) = true -> forall t, find_id (trs x) id = Some t -> t_ev t <> ev) ->
+  pend_flag ev (fl (main_part id ok scr x)) = true.
+Proof.
+  intros Hev Hm Hp Hno. unfold main_part. destruct scr.
+  - unfold main_scrape. destruct ok; exact Hp.
+  - destruct ok.
+    + unfold main_success. destruct (find_id (trs x) id) as [t |] eqn:Hf; [| exact Hp].
+      apply ctl_receive_success_flag; auto.
+      destruct (f_active (fl x)) eqn:Ha; [left; apply (Hno eq_refl eq_refl eq_refl t eq_refl) | right; exact Ha].
+    + unfold main_failure. simpl. destruct (negb (f_active (fl x))); [exact Hp |].
+      match goal with |- context [do_timeout ?y] => pose proof (do_timeout_E y) as [_ (hfl & _)]; rewrite hfl end.
+      simpl. destruct Hev; subst ev; exact Hp.
+Qed.
+
+Lemma perform_flags s n : mask_excl (fl s) -> fl (perform (set_now s n)) = fl s.
+Proof.
+  intros Hm. unfold perform.
+  assert (Hr : rel s (set_now s n)) by (unfold rel, same3; simpl; ssplit; reflexivity).
+  destruct (perform_n_ok s (OAdvance 0) 4 I (set_now s n) Hm Hr) as (a & _). exact a.
+Qed.
+
 Lemma pend_flag_step ev s o : (ev = EvStarted \/ ev = EvCompleted) -> mask_excl (fl s) ->
   pend_flag ev (fl s) = true -> ~ clears ev s o -> pend_flag ev (fl (step s o)) = true.
 Proof.
@@ -365,22 +410,21 @@ Proof.
   - destruct (tracker_enable_facts s id) as (_ & h & _). simpl in h. rewrite h. exact Hp.
   - destruct (tracker_disable_facts s id) as (_ & h & _). simpl in h. rewrite h. exact Hp.
   - exact Hp.
-  - unfold reply_success. destruct (find_id (trs s) id) as [t |] eqn:Hf; [| exact Hp].
+  - unfold reply_success, reply_now. destruct (find_id (trs s) id) as [t |] eqn:Hf; [| exact Hp].
     destruct (negb (t_busy t)) eqn:Hb; [exact Hp |]. apply negb_false_iff in Hb.
-    apply ctl_receive_success_flag; auto.
-    destruct (f_active (fl s)) eqn:Ha; [left | right; exact Ha].
-    intros E. apply Hc. split; [reflexivity |]. exists t. ssplit; auto.
-  - unfold reply_failure. destruct (find_id (trs s) id); [| exact Hp]. destruct (negb (t_busy t)); [exact Hp |].
-    simpl. destruct (negb (f_active (fl s))); [exact Hp |].
-    match goal with |- context [do_timeout ?x] => pose proof (do_timeout_E x) as [_ (hfl & _)]; rewrite hfl end.
-    simpl. destruct Hev; subst ev; exact Hp.
-  - unfold perform. simpl. destruct (tmo s); [| exact Hp].
-    match goal with |- context [if ?c then _ else _] => destruct c end; [| exact Hp].
-    match goal with |- context [do_timeout ?x] => pose proof (do_timeout_E x) as [_ (hfl & _)]; rewrite hfl end. exact Hp.
-  - destruct (tmo s) eqn:Ht; [| exact Hp]. unfold perform. simpl. rewrite Ht.
-    match goal with |- context [if ?c then _ else _] => destruct c end; [| exact Hp].
-    match goal with |- context [do_timeout ?x] => pose proof (do_timeout_E x) as [_ (hfl & _)]; rewrite hfl end. exact Hp.
+    apply main_part_flag; auto. simpl. intros _ Hscr Ha t' Hf' E.
+    rewrite find_id_upd in Hf' by apply worker_upd_id. rewrite Hf in Hf'. simpl in Hf'. inversion Hf'; subst t'.
+    rewrite worker_upd_ev in E. apply Hc. split; [exact Ha |]. exists t. ssplit; auto.
+  - unfold reply_failure, reply_now. destruct (find_id (trs s) id) as [t |]; [| exact Hp]. destruct (negb (t_busy t)); [exact Hp |].
+    apply main_part_flag; auto. simpl. intros; discriminate.
+  - rewrite perform_flags by exact Hm. exact Hp.
+  - destruct (tmo s); [| exact Hp]. rewrite perform_flags by exact Hm. exact Hp.
   - exact Hp.
+  - destruct skip_tracker.
+    + destruct (ctl_enable_facts s Hm false) as (_&_&_&_&_&_&_&_&(a&b)). simpl in a, b.
+      destruct Hev; subst ev; simpl in *; congruence.
+    + match goal with |- context [send_start_event ?x] => destruct (send_start_event_spec x) as (_ & b & _) end.
+      destruct Hev; subst ev; simpl; [exact b | exfalso; apply Hc; discriminate].
   - destruct skip_tracker.
     + destruct (ctl_enable_facts s Hm false) as (_&_&_&_&_&_&_&_&(a&b)). simpl in a, b.
       destruct Hev; subst ev; simpl in *; congruence.
@@ -388,7 +432,15 @@ Proof.
       destruct Hev; subst ev; simpl; [exact b | exfalso; apply Hc; discriminate].
   - destruct skip_tracker; [| exfalso; apply Hc; exact I].
     unfold ctl_disable. destruct (negb (f_active (fl s))); [exact Hp |]. simpl. destruct Hev; subst ev; exact Hp.
-  - destruct (insert_op_facts s g) as (_ & h & _). simpl in h. rewrite h. exact Hp.
+  - destruct (insert_op_facts s g scr) as (_ & h & _). simpl in h. rewrite h. exact Hp.
+  - unfold scrape_request. destruct (Z.max sec 0 =? 0); exact Hp.
+  - destruct (tsc s); [| exact Hp]. rewrite perform_flags by exact Hm. exact Hp.
+  - unfold worker_done. destruct (pend s); [exact Hp |]. destruct (find_id (trs s) id) as [t |]; [| exact Hp].
+    destruct (negb (t_busy t)); exact Hp.
+  - unfold drain. destruct (pend s) as [[id [ok scr]] |] eqn:Hpd; [| exact Hp].
+    apply main_part_flag; auto. simpl. intros Hok Hscr Ha t Hf E. subst ok scr.
+    apply Hc. split; [exact Ha |]. exists id, t. ssplit; auto.
+  - exact Hp.
 Qed.
 
 Lemma pend_flag_current ev f : (ev = EvStarted \/ ev = EvCompleted) -> mask_excl f -> pend_flag ev f = true -> current_send_event f = ev.
@@ -402,7 +454,7 @@ Proof.
   { intros (a & b & _). destruct Hev; subst ev; simpl in *; congruence. }
   destruct (r_src r).
   - destruct Hsite as (he & _). rewrite he.
-    destruct Hev as [E | E]; [congruence |]. exfalso. apply Hc. subst ev. destruct Hst; subst o; simpl; discriminate.
+    destruct Hev as [E | E]; [congruence |]. exfalso. apply Hc. subst ev. destruct Hst as [Hst | [Hst | Hst]]; subst o; simpl; discriminate.
   - exfalso. apply Hc. destruct Hst; subst o; exact I.
   - destruct Hsite as (he & _). rewrite he.
     destruct Hev as [E | E]; [| congruence]. exfalso. apply Hc. subst ev o. simpl. discriminate.
@@ -432,7 +484,7 @@ Proof. unfold run. apply fold_left_app. Qed.
 (* every announce attempt from send_start_event until a tracker accepts a request that carried
    STARTED (or the client replaces the event by stop/completed) carries STARTED *)
 Lemma started_carried_trace t0 groups ops1 o ops2 :
-  o = OSendStart \/ o = OStart false ->
+  o = OSendStart \/ o = OStart false \/ o = OStartK false ->
   let s0 := run (init t0 groups) ops1 in
   pending_run EvStarted (step s0 o) ops2 ->
   exists new, log (run (step s0 o) ops2) = new ++ log s0 /\ Forall (fun r => r_ev r = EvStarted) new.
@@ -440,7 +492,8 @@ Proof.
   intros Ho s0 Hrun.
   assert (HI : Inv s0) by (apply Inv_run, Inv_init). pose proof HI as (Hm & _).
   assert (Hf : f_start (fl (step s0 o)) = true).
-  { destruct Ho; subst o; simpl; [apply send_start_event_spec | apply (send_start_event_spec (ctl_enable true s0))]. }
+  { destruct Ho as [Ho | [Ho | Ho]]; subst o; simpl;
+      match goal with |- context [send_start_event ?x] => apply (send_start_event_spec x) end. }
   destruct (step_spec s0 Hm o) as (_ & _ & _ & [n1 [e1 f1]]).
   destruct (pending_emits EvStarted (or_introl eq_refl) ops2 (step s0 o) (Inv_step s0 o HI) Hf Hrun) as [n2 [e2 f2]].
   exists (n2 ++ n1). split; [rewrite e2, e1, app_assoc; reflexivity |].
@@ -448,10 +501,10 @@ Proof.
   eapply Forall_impl; [| exact f1]. intros r ([_ Hsite] & _ & Hst).
   destruct (r_src r).
   - apply Hsite.
-  - destruct Ho, Hst; subst o; discriminate.
-  - destruct Ho; subst o; discriminate.
-  - destruct Hst as ([E | E] & _); destruct Ho; subst o; discriminate.
-  - destruct Hst as (E & _). destruct Ho; subst o; contradiction.
+  - destruct Ho as [Ho | [Ho | Ho]], Hst; subst o; discriminate.
+  - destruct Ho as [Ho | [Ho | Ho]]; subst o; discriminate.
+  - destruct Hst as ([E | E] & _); destruct Ho as [Ho | [Ho | Ho]]; subst o; discriminate.
+  - destruct Hst as (E & _). destruct Ho as [Ho | [Ho | Ho]]; subst o; contradiction.
 Qed.
 
 Lemma completed_carried_trace t0 groups ops1 ops2 :
@@ -468,7 +521,7 @@ Proof.
   apply Forall_app. split; [assumption |].
   eapply Forall_impl; [| exact f1]. intros r ([_ Hsite] & _ & Hst).
   destruct (r_src r).
-  - destruct Hst; discriminate.
+  - destruct Hst as [E | [E | E]]; discriminate.
   - destruct Hst; discriminate.
   - apply Hsite.
   - destruct Hst as ([E | E] & _); discriminate.
@@ -502,7 +555,7 @@ Lemma tier_order_strict_refuted :
     In u (r_trs r) /\ Nat.ltb (t_group u) (t_group (r_pre r)) = true /\
     t_en u = true /\ t_busy u = false /\ t_fc u = 0.
 Proof.
-  exists 31536000000000, [0%nat; 1%nat; 2%nat],
+  exists 31536000000000, [(0%nat, false); (1%nat, false); (2%nat, false)],
     [OEnable true; OSendStart; OFailure 0%nat None; OSuccess 1%nat 1800 600; OFailure 2%nat None; ONext; OFailure 0%nat None].
   eexists. eexists. split; [vm_compute; left; reflexivity |].
   vm_compute. split; [reflexivity |]. split; [reflexivity |]. split; [reflexivity |].
@@ -511,28 +564,28 @@ Qed.
 
 (* regression of the repaired defects, inside the model: the former witnesses now behave *)
 Example manual_request_keeps_started :
-  exists r, In r (log (run (init 31536000000000 [0%nat]) [OEnable true; OSendStart; OFailure 0%nat None; OManual])) /\
+  exists r, In r (log (run (init 31536000000000 [(0%nat, false)]) [OEnable true; OSendStart; OFailure 0%nat None; OManual])) /\
     r_src r = SrcUpdate /\ r_ev r = EvStarted.
 Proof. eexists. split; [vm_compute; left; reflexivity |]. vm_compute. split; reflexivity. Qed.
 
 Example pending_run_inhabited :
-  pending_run EvStarted (step (run (init 31536000000000 [0%nat; 1%nat]) [OEnable true]) OSendStart)
+  pending_run EvStarted (step (run (init 31536000000000 [(0%nat, false); (1%nat, false)]) [OEnable true]) OSendStart)
     [OFailure 0%nat None; OManual; OAdvance 3000000; ONext].
 Proof. vm_compute. repeat split; try tauto; intros [H _]; discriminate. Qed.
 
 Example sites_inhabited :
-  exists r, In r (log (run (init 31536000000000 [0%nat; 0%nat; 1%nat])
+  exists r, In r (log (run (init 31536000000000 [(0%nat, false); (0%nat, false); (1%nat, false)])
       [OStart false; OFailure 0%nat None; OAdvance 3000000; OSuccess 1%nat 1800 600; ONext; OSendCompleted; OStop false])) /\
     r_ev r = EvStopped /\ r_src r = SrcStop.
 Proof. eexists. split; [vm_compute; left; reflexivity |]. vm_compute. split; reflexivity. Qed.
 
 Example timer_site_inhabited :
-  exists r, In r (log (run (init 31536000000000 [0%nat]) [OStart false; OFailure 0%nat None; ONext])) /\
+  exists r, In r (log (run (init 31536000000000 [(0%nat, false)]) [OStart false; OFailure 0%nat None; ONext])) /\
     r_src r = SrcTimer /\ t_fc (r_pre r) <> 0 /\ f_start (r_fl r) = true /\ r_ev r = EvStarted.
 Proof. eexists. split; [vm_compute; left; reflexivity |]. vm_compute. repeat split; congruence. Qed.
 
 Example min_interval_site_inhabited :
-  exists r, In r (log (run (init 31536000000000 [0%nat]) [OStart false; OSuccess 0%nat 600 3000; OStartRequesting; OAdvance 0; ONext])) /\
+  exists r, In r (log (run (init 31536000000000 [(0%nat, false)]) [OStart false; OSuccess 0%nat 600 3000; OStartRequesting; OAdvance 0; ONext])) /\
     r_src r = SrcTimer /\ t_fc (r_pre r) = 0 /\ t_sc (r_pre r) <> 0 /\ t_mi (r_pre r) = 3000 /\
     r_time r / usec = t_stl (r_pre r) + 3000.
 Proof. eexists. split; [vm_compute; left; reflexivity |]. vm_compute. repeat split; congruence. Qed.
@@ -556,10 +609,41 @@ Qed.
 Lemma do_timeout_ids s : ids (do_timeout s) = ids s.
 Proof. destruct (do_timeout_E s) as [_ (_ & k)]. apply keeps_ids. exact k. Qed.
 
-Lemma perform_ids s : ids (perform s) = ids s.
-Proof. unfold perform. destruct (tmo s); [| reflexivity]. destruct (z <=? now s); [apply do_timeout_ids | reflexivity]. Qed.
+Lemma do_scrape_ids s : ids (do_scrape s) = ids s.
+Proof. destruct (do_scrape_frame s) as [_ (_ & k)]. apply keeps_ids. exact k. Qed.
 
-Lemma step_ids s o : mask_excl (fl s) -> (forall g, o <> OInsert g) -> Permutation (ids (step s o)) (ids s).
+Lemma perform_n_ids fuel : forall s, ids (perform_n fuel s) = ids s.
+Proof.
+  induction fuel as [| fuel IH]; intros s; simpl; [reflexivity |]. unfold perform1.
+  match goal with |- context [if ?c then Some (do_timeout s) else _] => destruct c end; [rewrite IH; apply do_timeout_ids |].
+  match goal with |- context [if ?c then Some _ else None] => destruct c end; [| reflexivity].
+  rewrite IH. rewrite do_scrape_ids. reflexivity.
+Qed.
+
+Lemma perform_ids s : ids (perform s) = ids s.
+Proof. apply perform_n_ids. Qed.
+
+Lemma main_part_ids id ok scr x : mask_excl (fl x) -> Permutation (ids (main_part id ok scr x)) (ids x).
+Proof.
+  intros Hm. assert (EQ : forall a b : list nat, a = b -> Permutation a b) by (intros; subst; apply Permutation_refl).
+  unfold main_part. destruct scr.
+  - unfold main_scrape. destruct ok; [| apply Permutation_refl]. apply EQ. unfold ids. simpl. apply upd_map. reflexivity.
+  - destruct ok.
+    + unfold main_success. destruct (find_id (trs x) id); [| apply Permutation_refl].
+      match goal with |- context [ctl_receive_success ?e ?n ?y] => set (y0 := y); destruct (ctl_receive_success_facts e n y0 Hm) as (_ & h & _) end.
+      unfold ids. rewrite h. subst y0. simpl. rewrite upd_map by reflexivity. apply Permutation_map, promote_perm.
+    + apply EQ. unfold main_failure. simpl. destruct (negb (f_active (fl x))).
+      * unfold ids. simpl. apply upd_map. reflexivity.
+      * rewrite do_timeout_ids. unfold ids. simpl. apply upd_map. reflexivity.
+Qed.
+
+Lemma reply_now_ids id r s : mask_excl (fl s) -> Permutation (ids (reply_now id r s)) (ids s).
+Proof.
+  intros Hm. unfold reply_now. destruct (find_id (trs s) id); [| apply Permutation_refl]. destruct (negb (t_busy t)); [apply Permutation_refl |].
+  eapply Permutation_trans; [apply main_part_ids; exact Hm |]. unfold ids. simpl. rewrite upd_map by apply worker_upd_id. apply Permutation_refl.
+Qed.
+
+Lemma step_ids s o : mask_excl (fl s) -> (forall g scr, o <> OInsert g scr) -> Permutation (ids (step s o)) (ids s).
 Proof.
   intros Hm Hno.
   assert (EQ : forall a b : list nat, a = b -> Permutation a b) by (intros; subst; apply Permutation_refl).
@@ -581,22 +665,26 @@ Proof.
     match goal with |- context [if ?c then _ else _] => destruct c end;
       try rewrite (proj1 (proj2 (proj2 (update_timeout_same _ _)))); simpl; apply upd_map; reflexivity.
   - unfold ids. simpl. apply Permutation_map, cycle_perm.
-  - unfold reply_success. destruct (find_id (trs s) id); [| apply Permutation_refl]. destruct (negb (t_busy t)); [apply Permutation_refl |].
-    match goal with |- context [ctl_receive_success ?e ?n ?y] => set (x := y); destruct (ctl_receive_success_facts e n x Hm) as (_ & h & _) end.
-    unfold ids. rewrite h. subst x. simpl. rewrite upd_map by reflexivity.
-    eapply Permutation_trans; [apply Permutation_map, promote_perm |]. rewrite upd_map by reflexivity. apply Permutation_refl.
-  - apply EQ. unfold reply_failure. destruct (find_id (trs s) id); [| reflexivity]. destruct (negb (t_busy t)); [reflexivity |].
-    simpl. destruct (negb (f_active (fl s))).
-    + unfold ids. simpl. rewrite upd_map by reflexivity. apply upd_map. reflexivity.
-    + rewrite do_timeout_ids. unfold ids. simpl. rewrite upd_map by reflexivity. apply upd_map. reflexivity.
+  - apply reply_now_ids; exact Hm.
+  - apply reply_now_ids; exact Hm.
   - apply EQ. rewrite perform_ids. reflexivity.
   - destruct (tmo s); [| apply Permutation_refl]. apply EQ. rewrite perform_ids. reflexivity.
   - apply Permutation_refl.
   - destruct skip_tracker; apply EQ; [apply ctl_enable_ids |].
+    match goal with |- context [send_start_event ?x] =>
+      rewrite (keeps_ids _ _ (proj1 (proj2 (proj2 (proj2 (proj2 (send_start_event_spec x))))))) end. apply ctl_enable_ids.
+  - destruct skip_tracker; apply EQ; [apply ctl_enable_ids |].
     rewrite (keeps_ids _ _ (proj1 (proj2 (proj2 (proj2 (proj2 (send_start_event_spec (ctl_enable true s)))))))). apply ctl_enable_ids.
   - apply EQ. unfold ids. rewrite (proj1 (proj2 (ctl_disable_facts _))). destruct skip_tracker; [reflexivity |].
     apply (keeps_ids s). apply send_stop_event_spec.
-  - exfalso. apply (Hno g). reflexivity.
+  - exfalso. apply (Hno g scr). reflexivity.
+  - apply EQ. unfold scrape_request. destruct (Z.max sec 0 =? 0); reflexivity.
+  - destruct (tsc s); [| apply Permutation_refl]. apply EQ. rewrite perform_ids. reflexivity.
+  - apply EQ. unfold worker_done. destruct (pend s); [reflexivity |]. destruct (find_id (trs s) id); [| reflexivity].
+    destruct (negb (t_busy t)); [reflexivity |]. unfold ids. simpl. apply upd_map. apply worker_upd_id.
+  - unfold drain. destruct (pend s) as [[id [ok scr]] |]; [| apply Permutation_refl].
+    eapply Permutation_trans; [apply main_part_ids; exact Hm | apply Permutation_refl].
+  - apply Permutation_refl.
 Qed.
 
 Lemma insert_ids_seq t l : t_id t = length l -> Permutation (map t_id l) (seq 0 (length l)) ->
@@ -620,7 +708,7 @@ Proof.
            pose proof (step_ids s o Hm ltac:(intros; discriminate)) as Hp;
            rewrite (Hlen (step s o)), (Permutation_length Hp), <- Hlen;
            exact (Permutation_trans Hp Hi) end).
-  simpl. match goal with |- context [insert_op ?g s] => destruct (insert_op_facts s g) as (_ & _ & _ & h) end.
+  simpl. match goal with |- context [insert_op ?g ?sc s] => destruct (insert_op_facts s g sc) as (_ & _ & _ & h) end.
   unfold ids in *. rewrite h. apply insert_ids_seq; [reflexivity | exact Hi].
 Qed.
 
